@@ -1377,7 +1377,7 @@ class SpanElement(ContentElement):
 
   @staticmethod
   def is_instance(xml_elem):
-    return xml_elem.tag == SpanElement.qn and SpanElement.get_ruby_attr(xml_elem) is None
+    return xml_elem.tag == SpanElement.qn and SpanElement.get_ruby_attr(xml_elem) in (None, "none")
 
   @staticmethod
   def get_ruby_attr(ttml_span):
